@@ -916,9 +916,18 @@ func init() {
 			tags = append(tags, genTag{0x64657363, descV2([]byte("profile"), nil)})
 			profiles = append(profiles, layoutProfile(rng, hdr, tags, false))
 		}
+		// tag data larger than any block a reader may use (LUT-based printer profiles run to hundreds of KB)
+		for _, sz := range []int{70000, 100000, 300000} {
+			hdr := randBytes(rng, 128)
+			copy(hdr[36:], "acsp")
+			profiles = append(profiles, layoutProfile(rng, hdr, []genTag{{0x41324230, randBytes(rng, sz)}, {0x64657363, descV2([]byte("large profile"), nil)}}, false))
+		}
 		for _, p := range profiles {
 			p := p
 			ss := append(scheds(c, len(p), true), hesitantScheds(c, len(p))...)
+			if len(p) > 60000 && !c.thorough {
+				ss = ss[3:] // no 1- and 7-byte delivery of the large profiles in the quick tier
+			}
 			jobs = append(jobs, func(w *worker) {
 				base := iccOutcome(p, allAtOnce, 4096)
 				for _, s := range ss {
